@@ -221,6 +221,82 @@ def fixed_buffer_sites(db, rep):
 
 
 
+class DnsHooks(QHooks):
+    """one resource-record walker of dns.c on a response that ends `rem` bytes after the record's fixed header"""
+    def __init__(self, L, entry):
+        self.L = L
+        self.entry = entry
+        self.over = None
+        self.rets = []
+
+    def tracked_global(self, path):
+        return True
+
+    def precise_arith(self, path):
+        return True
+
+    def materialize(self, E, path):
+        if path.startswith('RB['):
+            k = int(path[3:-1])
+            if k >= self.L and self.over is None:
+                self.over = (k, E.trace.list())
+            return fs(0) if k < self.L else TOP
+        return TOP
+
+    def prim_dn_expand(self, E, x, args):
+        # the library routine is bounded by the end-of-message pointer it is given: it must be the end of the response
+        eom = args[1]
+        eom = next(iter(eom)) if eom is not TOP and len(eom) == 1 else None
+        src = args[2]
+        src = next(iter(src)) if src is not TOP and len(src) == 1 else None
+        if eom != ('&', 'RB[%d]' % self.L) and self.over is None:
+            self.over = ('dn_expand() is given the end-of-message %s' % (eom,), E.trace.list())
+        k = int(src[1][3:-1]) if isinstance(src, tuple) and src[0] == '&' and src[1].startswith('RB[') else None
+        if k is None or k >= self.L:
+            return [Outcome(ret=fs(-1))]
+        return [Outcome(ret=fs(1)), Outcome(ret=fs(-1))]
+
+    def on_return(self, E, fn, val):
+        if fn.name == self.entry:
+            self.rets.append(val)
+
+
+def dns_walker_sites(db, rep):
+    """findip / findmx / findname: the data of a resource record is read only if it lies inside the response"""
+    prog = db.program('qmail-remote')
+    out = {}
+    du = db.unit('dns.c')
+    soft = du.macro_int('DNS_SOFT')
+    for fname, wt, needs in (('findip', 1, 4), ('findmx', 15, 3), ('findname', 12, 1)):
+        fn = db.fn('dns.c', fname)
+        bad = None
+        nrun = 0
+        for rdlen in (0, 2, 3, 4, 16):
+            for rem in (0, 1, 2, 3, 4, 16):
+                P = 20                      # the record starts here
+                L = P + 1 + 10 + rem        # name (1 byte) + fixed part (10 bytes) + what is left of the data
+                H = DnsHooks(L, fname)
+                e = Engine(db, prog, H, max_states=200000)
+                fid = e.frame_id(fn)
+                st = {'%s::%s' % (fid, fn.params[0]): fs(wt), 'S:dns_c:response.buf': fs(('&', 'RB[0]')), 'S:dns_c:responseend': fs(('&', 'RB[%d]' % L)),
+                      'S:dns_c:responsepos': fs(('&', 'RB[%d]' % P)), 'S:dns_c:numanswers': fs(1)}
+                for k in range(L):
+                    st['RB[%d]' % k] = fs(0)
+                st['RB[%d]' % (P + 1)] = fs(wt >> 8)
+                st['RB[%d]' % (P + 2)] = fs(wt & 255)
+                st['RB[%d]' % (P + 9)] = fs(rdlen >> 8)
+                st['RB[%d]' % (P + 10)] = fs(rdlen & 255)
+                e.run(fn, st)
+                rep.count_states(e.states, e.transitions)
+                nrun += 1
+                if H.over and bad is None:
+                    bad = ('a %s record whose length field says %d, with %d byte(s) of the response left behind its fixed header: %s' %
+                           ({1: 'A', 15: 'MX', 12: 'PTR'}[wt], rdlen, rem, ('byte %d of a %d-byte response is read' % (H.over[0], L)) if isinstance(H.over[0], int) else H.over[0]), H.over[1])
+        out['dns:%s-reads-record-data-only-inside-the-response' % fname] = (bad is None, 'dns.c:' + fname, bad[0] if bad else '%d (length field, bytes left) combinations' % nrun, bad[1] if bad else [])
+    return out
+
+
+
 def run(ctx):
     db, rep = ctx.db, ctx.report
     # ---------------------------------------------------------------- 1. reserve contracts (linear symbolic)
@@ -397,6 +473,11 @@ def run(ctx):
     r4.expect_min(6)
 
     # ---------------------------------------------------------------- 5. limit guards
+    r8 = rep.rule('C20.8-dns-records', 'R-BOUND', 'dns.c findip/findmx/findname over every combination of a record length field in {0,2,3,4,16} and {0,1,2,3,4,16} bytes of response left behind the record header: no byte at or behind the end of the response is read, and dn_expand() is bounded by the end of the response')
+    for inst, v in sorted(dns_walker_sites(db, rep).items()):
+        r8.check(v[0], inst, v[1], v[2], v[3])
+    r8.expect_min(3)
+
     r7 = rep.rule('C20.7-output-buffering', 'R-BOUND', 'substdio_put / substdio_bput on a 16-byte buffer with 0, 3 or 16 bytes buffered and 0..20000 bytes put: every store stays inside the buffer, and bytes written + bytes buffered = bytes handed in')
     from rules import libtab
     for inst, v in sorted(libtab.substdio_put_sites(db, rep, db.program('qmail-smtpd')).items()):
